@@ -307,7 +307,7 @@ func genCase(port string) func(t *rapid.T) Case {
 		if rapid.Bool().Draw(t, "junk?") {
 			k := rapid.IntRange(1, 4).Draw(t, "nJunk")
 			for i := 0; i < k; i++ {
-				j := rapid.SampledFrom([][]byte{{0xFE}, {0xF7}, {0xF4}, {0xF6}, {0xF1, 0x05}, {0xF3, 0x01}, {0xF2, 0x01, 0x02}, {0xF7, 0x33}, {0xF5, 0x11, 0x22}, {0xF8}, {0xFA}, {0xFF}, {0xFC}, {0xFD}, {0xF9}, {0xFD, 0x40}}).Draw(t, "junk")
+				j := rapid.SampledFrom([][]byte{{0xFE}, {0xF7}, {0xF4}, {0xF6}, {0xF1, 0x05}, {0xF3, 0x01}, {0xF2, 0x01, 0x02}, {0xF7, 0x33}, {0xF5, 0x11, 0x22}, {0xF0, 0x01, 0x02}, {0xF0}, {0xF0, 0x7E, 0x7F, 0x09}, {0xF8}, {0xFA}, {0xFF}, {0xFC}, {0xFD}, {0xF9}, {0xFD, 0x40}}).Draw(t, "junk")
 				out = append(append([]byte{}, j...), out...)
 				if rapid.Bool().Draw(t, "junkAtEnd") {
 					out = append(out[len(j):], j...)
@@ -340,7 +340,7 @@ func genCase(port string) func(t *rapid.T) Case {
 	}
 }
 
-const rule = "rapid: live streams of the C04 domain (1..30 messages, one stream in 25 has 300..1500; channel, system common, sysex, real-time incl. active sensing, running status, interleaved real-time) plus unpaired/undefined bytes (F4 F5 F7 F9 FD) between and inside messages, chunked with inter-arrival times 0..60000 ms and up to 14 pauses of up to 2^28 ms (the sum may pass 2^31 ms, where the 32-bit stamps wrap around; gaps between two recorded messages stay below 2^31 ms); tempo 20..400 BPM (fractional), resolution 24..15360; oracle: track = tempo event (within the 24-bit field's resolution) + exactly the channel messages the reference receiver sees, unchanged and in order, each delta within one tick of the exact rational conversion of the arrival time difference; every other stored event must be a legal SMF event; after Close+WriteTo the strict SMF parser accepts the bytes and ReadFrom returns the same events; non-trivial = >= 3 channel messages with a real-time / system-common message between two of them; distinct by case hash"
+const rule = "rapid: live streams of the C04 domain (1..30 messages, one stream in 25 has 300..1500; channel, system common, sysex, real-time incl. active sensing, running status, interleaved real-time) plus unpaired/undefined bytes (F4 F5 F7 F9 FD) and sysex starts that are never terminated (ended by the next status byte) between and inside messages, chunked with inter-arrival times 0..60000 ms and up to 14 pauses of up to 2^28 ms (the sum may pass 2^31 ms, where the 32-bit stamps wrap around; gaps between two recorded messages stay below 2^31 ms); tempo 20..400 BPM (fractional), resolution 24..15360; oracle: track = tempo event (within the 24-bit field's resolution) + exactly the channel messages the reference receiver sees, unchanged and in order, each delta within one tick of the exact rational conversion of the arrival time difference; every other stored event must be a legal SMF event; after Close+WriteTo the strict SMF parser accepts the bytes and ReadFrom returns the same events; non-trivial = >= 3 channel messages with a real-time / system-common message between two of them; distinct by case hash"
 
 var fake = ev.NewCheck("C13", "track-record-fake-port", rule+"; port = deterministic drivers.In of the harness (exact clock)", genCase("fake"), run)
 var tdrv = ev.NewCheck("C13", "track-record-testdrv", rule+"; port = testdrv with Driver.Sleep as clock (first recorded delta exempt: that driver's first time stamp contains the wall clock)", genCase("testdrv"), run)
